@@ -27,6 +27,9 @@ const TEXTS: &[(&str, Option<&str>)] = &[
     ("@jsxRuntime classic\n * @jsx h", Some("h")),
     ("@jsx h\n * @jsxFrag F\n * @jsxImportSource vue", Some("h")),
     ("@jsx\n * @jsx h", Some("h")),
+    // words that were reserved in ES3 only are ordinary identifiers
+    ("@jsx native", Some("native")),
+    ("@jsx int", Some("int")),
 ];
 const STYLES: &[&str] = &["block", "jsdoc", "line", "jsdoc-multiline"];
 const PLACEMENTS: &[&str] = &["head", "before-stmt-1", "before-stmt-2", "inside-function", "none"];
@@ -48,7 +51,11 @@ fn build(c: &mut Choices, placement: usize, style: usize, text: usize, opt_pragm
     } else {
         crate::gen::opts::any_opts(c, false, false)
     };
-    opts.pragma = if opt_pragma { Some("opt".into()) } else { None };
+    opts.pragma = if opt_pragma {
+        Some(if c.chance(1, 4) { "final".into() } else { "opt".into() })
+    } else {
+        None
+    };
     let cfg = SemCfg {
         max_attrs: 2,
         max_children: 2,
@@ -57,7 +64,7 @@ fn build(c: &mut Choices, placement: usize, style: usize, text: usize, opt_pragm
         ..SemCfg::default()
     };
     let mut g = Sem::new(c, cfg, opts.clone());
-    g.env.factories = vec!["h".into(), "opt".into(), "F".into()];
+    g.env.factories = vec!["h".into(), "opt".into(), "F".into(), "native".into(), "int".into(), "final".into()];
     let n0 = g.node(0);
     let n1 = g.node(0);
     let mut kids = g.children(1);
